@@ -197,6 +197,38 @@ theorem split_complete_prog (hp : AggPersistent P) (S : Split) (hok : Ok S) (pre
     split_complete (stdParams P) _ S.syn (ctx P pre post) (cond_of_ok P hp S hok) (ctx_indep P S pre post hctx) T' h1
   exact ⟨T, (stable_denote _ _ T).mp ((Sem.stable_of_models (models_before P S pre post) T).mpr hT), hext⟩
 
+/-! ## folding against an auxiliary rule that is already there -/
+
+theorem models_unfolded_prog (S : Split) (hok : Ok S) (pre post : Prog) (H T : Interp) :
+    HT.Models (denote (stdParams P) (pre ++ S.auxRule :: S.orig :: post)) H T ↔
+      HT.Models (unfoldedProg (stdParams P) (fun v => v ∈ S.G0) S.syn (ctx P pre post)) H T := by
+  rw [models_denote]
+  simp only [Models, List.mem_append, List.mem_cons, unfoldedProg, Split.syn]
+  constructor
+  · intro h r hr
+    rcases hr with (⟨s, hs, rfl⟩ | hr) | hr
+    · rcases List.mem_append.mp hs with hs | hs
+      · exact h s (Or.inl hs)
+      · exact h s (Or.inr (Or.inr (Or.inr hs)))
+    · exact (orig_models P S H T).mp (h _ (Or.inr (Or.inr (Or.inl rfl)))) r hr
+    · exact (aux_models P S hok H T).mp (h _ (Or.inr (Or.inl rfl))) r hr
+  · intro h s hs
+    rcases hs with hs | rfl | rfl | hs
+    · exact h _ (Or.inl (Or.inl ⟨s, List.mem_append_left _ hs, rfl⟩))
+    · exact (aux_models P S hok H T).mpr fun r hr => h r (Or.inr hr)
+    · exact (orig_models P S H T).mpr fun r hr => h r (Or.inl (Or.inr hr))
+    · exact h _ (Or.inl (Or.inl ⟨s, List.mem_append_right _ hs, rfl⟩))
+
+/-- **fold for programs**: with `aux(vs) :- new.` in the program, `head :- body.` (which contains `new`) and
+`head :- rest, aux(vs).` are interchangeable: the two programs have the SAME stable models -/
+theorem fold_existing_prog (hp : AggPersistent P) (S : Split) (hok : Ok S) (pre post : Prog) (hctx : CtxOk S pre post)
+    (T : Interp) :
+    Stable (stdParams P) (pre ++ S.auxRule :: S.orig :: post) T ↔
+      Stable (stdParams P) (pre ++ S.auxRule :: S.updRule :: post) T := by
+  rw [← stable_denote, ← stable_denote,
+    Sem.stable_of_models (models_unfolded_prog P S hok pre post) T, Sem.stable_of_models (models_after P S hok pre post) T]
+  exact fold_existing (stdParams P) _ S.syn (ctx P pre post) (cond_of_ok P hp S hok) (ctx_indep P S pre post hctx) T
+
 /-! ## the executable check -/
 
 def iffB (a b : Bool) : Bool := a == b
